@@ -2,6 +2,7 @@
 
 use crate::exec::{Params, Program};
 
+pub mod cell;
 pub mod ebr;
 pub mod rc;
 pub mod seq;
@@ -16,6 +17,7 @@ pub fn all() -> Vec<&'static ScenarioDef> {
     let mut v: Vec<&'static ScenarioDef> = Vec::new();
     v.extend(rc::SCENARIOS.iter());
     v.extend(seq::SCENARIOS.iter());
+    v.extend(cell::SCENARIOS.iter());
     v.extend(ebr::SCENARIOS.iter());
     v
 }
